@@ -94,6 +94,26 @@ PROPERTIES = {
                          'representation invariant wf over-approximates reachable values'],
         'assumptions': ['base text without ESC', 'format specs are C12', 'AnsiStr renderings are delegations (C13)'],
     },
+    'C14': {
+        'groups': ['S1', 'S2', 'S3', 'S4', 'S5', 'S6', 'J1', 'F2'],
+        'level': 'other',
+        'explanation': 'The settings scrubber (_AnsiSettingPoint._scrub_ansi_settings and its helpers) is executed symbolically on the '
+                       'real source.  S3: for every member of AnsiFormat.__members__ (read from the class under test, ~800 names, '
+                       'exhaustive) the name in upper / lower case, with spaces, with hyphens in title case, the member object, its '
+                       'codes as one ";"-string, verbatim after "[", as ints and as a nested list all give the member\'s settings, each '
+                       'parsable.  S1: rgb() / color256() and all aliases for all integers (clamping, 24-bit split, introducer per '
+                       'component, underline pairs) - unbounded.  S5: the string directives rgb(r,g,b) / rgb(0xRRGGBB) / '
+                       '[fg_|bg_|ul_|dul_]colo[u]r256(n) with symbolic digits give the helper settings; malformed ones raise '
+                       'ValueError.  S4: 1-4/5 integer codes 0..255 as tuple, nested lists/tuples and ";"-string give the settings of '
+                       'the flat list; J1 ties the integer-run grouping to the terminal.  S6: every pair of forms in a list / tuple / '
+                       '";"-joined string is the concatenation of the two; make_unique copies objects.  S2: negative integers at any '
+                       'position, unknown names, malformed directives -> ValueError; unsupported types -> TypeError; self-containing '
+                       'lists -> ValueError.  F2 carries the scrubbed settings into the value reported by ansi_settings_at.',
+        'trusted_base': ['regex model (pyvc/regex_model.py) for the rgb/color256 patterns, cross-checked against re',
+                         'int(text, base) model on character strings'],
+        'assumptions': ['mixtures are checked pairwise (two elements); deeper mixtures rest on the recursion being the same code',
+                        'integer codes 0..255 in S4/S6; extended-colour groups are not split across nesting levels'],
+    },
     'C15': {
         'groups': ['K1', 'K1b', 'K2', 'K3', 'S1', 'R4', 'T1'],
         'level': 'other',
